@@ -144,3 +144,20 @@ Print Assumptions C05_tie_conclusions.
 (** the hypothesis is satisfiable: the witness of [C05_similarity_refuted] passes [check_alg] *)
 Example C05_tie_conclusions_applies : nh_wit_check = true.
 Proof. exact (proj1 nh_witness). Qed.
+
+(** ... and the similarity clauses inside the class where they hold: [nh_inputs_ok] (a boolean,
+    evaluated by vm_compute for the k_semeq cases) says that the mask is reflexive on the basis
+    states, eliminated pairs have distinct energies, the loaded H has order-zero part diag(E) and
+    every KEPT pair has EQUAL energies (outside this class the property is false on the unchanged
+    code: known finding C05-kept-distinct-energies). *)
+Theorem C05_tie_similarity_partial :
+  forall (D k N : nat) (bl : list nat) (msk : list (list bool)) (cb : list bool) (El : list gq) (tb : bool)
+         (sols : list (string * tser gq)),
+    check_alg D k N bl msk cb El tb sols nonhermitian_alg = true ->
+    nh_inputs_ok D k N bl msk cb El sols = true ->
+    let BA := BAi D k bl msk cb in
+    let sol := asol D k sols in
+    eqN D k N (Sel (sol "U†" * sol "H" * sol "U")) (sol "H_tilde") /\
+    eqN D k N (Rp (sol "U†" * sol "H" * sol "U")) 0.
+Proof. intros. eapply nh_tie_similarity; eassumption. Qed.
+Print Assumptions C05_tie_similarity_partial.
